@@ -1,1 +1,218 @@
-(* C20 stub: to be written *)
+(* C20 -- proofs about the guards of Model/Validate.v: every member of each invalid class is
+   rejected (any magnitude, any position in an array argument, any batch shape), boundary
+   values are accepted, and the gaps of the guards are stated exactly. *)
+From Coq Require Import List ZArith QArith Qcanon Qabs Bool String Lia Lqa.
+From EPG Require Import Scalar QI Validate.
+Import ListNotations.
+
+(* ------------------------------------------------------------------ basics *)
+Lemma existsb_mid {A} (f : A -> bool) pre x post : f x = true -> existsb f (pre ++ x :: post) = true.
+Proof. intros H. apply existsb_exists. exists x. split; [apply in_elt | exact H]. Qed.
+
+Lemma forallb_false {A} (f : A -> bool) l x : In x l -> f x = false -> forallb f l = false.
+Proof.
+  intros Hin Hf. destruct (forallb f l) eqn:E; [|reflexivity].
+  rewrite forallb_forall in E. rewrite (E x Hin) in Hf. discriminate.
+Qed.
+
+Lemma all2d_false nb n f b i : (b < nb)%nat -> (i < n)%nat -> f b i = false -> all2d nb n f = false.
+Proof.
+  intros Hb Hi Hf. unfold all2d.
+  apply forallb_false with (x := b); [apply in_seq; lia|].
+  apply forallb_false with (x := i); [apply in_seq; lia| exact Hf].
+Qed.
+
+Lemma all2d_true nb n f : (forall b i, (b < nb)%nat -> (i < n)%nat -> f b i = true) -> all2d nb n f = true.
+Proof.
+  intros H. unfold all2d. apply forallb_forall. intros b Hb. apply forallb_forall. intros i Hi.
+  apply in_seq in Hb. apply in_seq in Hi. apply H; lia.
+Qed.
+
+Lemma Qltb_true x y : x < y -> Qltb x y = true.
+Proof.
+  intros H. unfold Qltb. destruct (Qle_bool y x) eqn:E; [|reflexivity].
+  apply Qle_bool_iff in E. exfalso. apply (Qlt_not_le _ _ H E).
+Qed.
+Lemma Qltb_false x y : y <= x -> Qltb x y = false.
+Proof. intros H. unfold Qltb. apply Qle_bool_iff in H. now rewrite H. Qed.
+
+Lemma lastd_app (s : list nat) a : lastd (s ++ [a]) = a.
+Proof. unfold lastd. apply last_last. Qed.
+Lemma lastd_app2 (s : list nat) a b : lastd (s ++ [a; b]) = b.
+Proof. change (s ++ [a; b]) with (s ++ [a] ++ [b]). rewrite app_assoc. apply lastd_app. Qed.
+Lemma butlast_app2 (s : list nat) (a b : nat) : butlast (s ++ [a; b]) = s ++ [a].
+Proof.
+  change (s ++ [a; b]) with (s ++ [a] ++ [b]). rewrite app_assoc.
+  unfold butlast. apply removelast_last.
+Qed.
+Lemma butlast_app (s : list nat) (a : nat) : butlast (s ++ [a]) = s.
+Proof. unfold butlast. apply removelast_last. Qed.
+
+(* ------------------------------------------------------------------ 1. durations *)
+Lemma any_neg_mid pre x post : x < 0 -> any_neg (pre ++ x :: post) = true.
+Proof. intros H. apply existsb_mid. now apply Qltb_true. Qed.
+
+Lemma any_neg_false l : (forall d, In d l -> 0 <= d) -> any_neg l = false.
+Proof.
+  intros H. unfold any_neg. destruct (existsb _ l) eqn:E; [|reflexivity].
+  apply existsb_exists in E. destruct E as [d [Hin Hd]]. rewrite (Qltb_false _ _ (H d Hin)) in Hd. discriminate.
+Qed.
+
+Theorem reject_negative_duration pre x post :
+  x < 0 -> duration_ok (Some (pre ++ x :: post)) = Reject ValueError.
+Proof. intros H. unfold duration_ok, guard. now rewrite any_neg_mid. Qed.
+
+Theorem accept_nonnegative_duration l :
+  (forall d, In d l -> 0 <= d) -> duration_ok (Some l) = Accept.
+Proof. intros H. unfold duration_ok, guard. now rewrite any_neg_false. Qed.
+
+Theorem duration_accept_iff l :
+  duration_ok (Some l) = Accept <-> (forall d, In d l -> 0 <= d).
+Proof.
+  split; [|apply accept_nonnegative_duration].
+  intros H d Hin. destruct (Qlt_le_dec d 0) as [Hlt|Hle]; [|exact Hle].
+  apply in_split in Hin. destruct Hin as [pre [post ->]].
+  rewrite (reject_negative_duration pre d post Hlt) in H. discriminate.
+Qed.
+
+Theorem accept_zero_duration n : duration_ok (Some (repeat 0 n)) = Accept /\ duration_ok None = Accept.
+Proof.
+  split; [|reflexivity]. apply accept_nonnegative_duration. intros d Hd.
+  apply repeat_spec in Hd. subst. apply Qle_refl.
+Qed.
+
+Theorem reject_negative_tau_as_duration pre x post :
+  x < 0 -> timed_op_ok DTrue (pre ++ x :: post) = Reject ValueError.
+Proof. apply reject_negative_duration. Qed.
+
+(* gap: E, P, D, X do not guard tau itself *)
+Theorem negative_tau_unguarded tau : timed_op_ok DNone tau = Accept.
+Proof. reflexivity. Qed.
+
+(* Offset accepts negative durations by design *)
+Theorem offset_accepts_any d : offset_ok d = Accept.
+Proof.
+  unfold offset_ok. apply accept_nonnegative_duration. intros x Hx.
+  apply in_map_iff in Hx. destruct Hx as [y [<- _]]. apply Qabs_nonneg.
+Qed.
+
+(* ------------------------------------------------------------------ 2.-4. shifts *)
+Lemma allclose0_true l : (forall x, In x l -> Qabs x <= atol) -> allclose0 l = true.
+Proof. intros H. apply forallb_forall. intros x Hx. unfold close0. apply Qle_bool_iff. now apply H. Qed.
+
+Theorem reject_zero_shift q isf sh data d :
+  (forall x, In x data -> Qabs x <= atol) -> S_ok q (KArr isf sh data) d = Reject TypeError.
+Proof. intros H. unfold S_ok. simpl k_data. now rewrite (allclose0_true _ H). Qed.
+
+Theorem reject_zero_shift_int q d : S_ok q (KInt 0) d = Reject TypeError.
+Proof. reflexivity. Qed.
+
+Lemma close0_int z : z <> 0%Z -> close0 (inject_Z z) = false.
+Proof.
+  intros Hz. unfold close0. destruct (Qle_bool _ _) eqn:E; [|reflexivity].
+  apply Qle_bool_iff in E. exfalso.
+  assert (H1 : 1 <= Qabs (inject_Z z)).
+  { unfold Qabs, inject_Z, Qle. simpl. lia. }
+  assert (H2 : atol < 1) by reflexivity.
+  apply (Qlt_not_le _ _ H2). eapply Qle_trans; eauto.
+Qed.
+
+Theorem accept_nonzero_int_shift q z : z <> 0%Z -> S_ok q (KInt z) None = Accept.
+Proof.
+  intros Hz. unfold S_ok, any_zero_row, row_zero. simpl. rewrite (close0_int z Hz). simpl.
+  destruct (q_zero_row q); reflexivity.
+Qed.
+
+(* with the switch off (zero rows refused): a zero row at any position of the batch *)
+Theorem reject_zero_shift_row q k d b :
+  q_zero_row q = false -> (b < List.length (k_data k) / kdim_of k)%nat ->
+  (forall c, (c < kdim_of k)%nat -> Qabs (nth (b * kdim_of k + c) (k_data k) 0) <= atol) ->
+  S_ok q k d = Reject TypeError.
+Proof.
+  intros Hq Hb Hrow. unfold S_ok. destruct (allclose0 (k_data k)); [reflexivity|]. simpl.
+  rewrite Hq. simpl.
+  assert (any_zero_row k = true) as ->; [|reflexivity].
+  unfold any_zero_row. apply existsb_exists. exists b. split; [apply in_seq; lia|].
+  unfold row_zero. apply forallb_forall. intros c Hc. apply in_seq in Hc.
+  unfold close0. apply Qle_bool_iff. apply Hrow. lia.
+Qed.
+
+(* the code that exists accepts it *)
+Theorem zero_shift_row_refuted q :
+  q_zero_row q = true ->
+  exists k, any_zero_row k = true /\ S_ok q k None = Accept.
+Proof.
+  intros Hq. exists (KArr false [2; 1]%nat [1; 0]). split; [reflexivity|].
+  unfold S_ok. rewrite Hq. reflexivity.
+Qed.
+
+Theorem reject_too_many_components q isf sh data d :
+  (4 < lastd (atleast_2d sh))%nat -> exists e, S_ok q (KArr isf sh data) d = Reject e.
+Proof.
+  intros H. unfold S_ok.
+  destruct (allclose0 _); [eexists; reflexivity|]. simpl.
+  destruct (negb (q_zero_row q) && any_zero_row _); [eexists; reflexivity|]. simpl.
+  assert (kdim_ok (KArr isf sh data) = false) as ->.
+  { unfold kdim_ok, kdim_of. apply andb_false_iff. right. apply Nat.leb_gt. exact H. }
+  eexists; reflexivity.
+Qed.
+
+Theorem reject_too_many_components_class q isf sh data d :
+  (4 < lastd (atleast_2d sh))%nat -> allclose0 data = false -> q_zero_row q = true ->
+  S_ok q (KArr isf sh data) d = Reject ValueError.
+Proof.
+  intros H Hz Hq. unfold S_ok. simpl k_data. rewrite Hz, Hq. simpl.
+  assert (kdim_ok (KArr isf sh data) = false) as ->; [|reflexivity].
+  unfold kdim_ok, kdim_of. apply andb_false_iff. right. apply Nat.leb_gt. exact H.
+Qed.
+
+Theorem accept_four_components isf sh data :
+  lastd (atleast_2d sh) = 4%nat -> kdim_ok (KArr isf sh data) = true.
+Proof. intros H. unfold kdim_ok, kdim_of. rewrite H. reflexivity. Qed.
+
+Theorem reject_negative_tau_G q c tsh pre x post gsh g d :
+  x < 0 -> G_ok q c tsh (pre ++ x :: post) gsh g d = Reject ValueError.
+Proof. intros H. unfold G_ok. now rewrite any_neg_mid. Qed.
+
+Theorem reject_negative_tau_C q islist tsh pre x post d :
+  x < 0 -> exists e, C_ok q islist tsh (pre ++ x :: post) d = Reject e.
+Proof.
+  intros H. unfold C_ok. destruct (q_C_list_tau q && islist); [eexists; reflexivity|].
+  simpl. rewrite any_neg_mid by exact H. eexists; reflexivity.
+Qed.
+
+Theorem reject_gradient_components q c tsh tau a gsh g d :
+  (3 < lastd (a :: gsh))%nat -> G_ok q c tsh tau (a :: gsh) g d = Reject ValueError.
+Proof.
+  intros H. unfold G_ok. destruct (any_neg tau); [reflexivity|]. simpl andv.
+  apply Nat.ltb_lt in H. rewrite H. reflexivity.
+Qed.
+
+(* the two clauses of the property meet: tau = 0 passes the time guard and is a zero shift *)
+Theorem G_tau_zero_is_zero_shift q c g d :
+  G_ok q c [] [0] [] g d = Reject TypeError.
+Proof.
+  unfold G_ok. simpl andv. unfold S_ok. simpl k_data.
+  assert (allclose0 (outer c [0] g) = true) as ->; [|reflexivity].
+  apply allclose0_true. intros x Hx. unfold outer in Hx. simpl in Hx. rewrite app_nil_r in Hx.
+  apply in_map_iff in Hx. destruct Hx as [y [<- _]].
+  assert (E : c * y * 0 == 0) by ring. rewrite E. discriminate.
+Qed.
+Theorem C_tau_zero_is_zero_shift q d : C_ok q false [] [0] d = Reject TypeError.
+Proof. unfold C_ok. rewrite andb_false_r. reflexivity. Qed.
+
+(* ------------------------------------------------------------------ 5. float shift without a grid *)
+Theorem reject_float_shift_without_grid sh data c :
+  S_apply_ok (KArr true sh data) c None None = Reject AttributeError.
+Proof. destruct c; reflexivity. Qed.
+Theorem reject_any_shift_on_float_coords_without_grid k :
+  S_apply_ok k CFloat None None = Reject AttributeError.
+Proof. reflexivity. Qed.
+Theorem accept_float_shift_with_grid k c g other :
+  Qeq_bool g 0 = false ->
+  S_apply_ok k c (Some g) other = Accept /\ S_apply_ok k c None (Some g) = Accept.
+Proof.
+  intros H. unfold S_apply_ok, pick_grid. rewrite H. simpl. rewrite !andb_false_r. split; reflexivity.
+Qed.
+Theorem accept_int_shift_without_grid z c : c <> CFloat -> S_apply_ok (KInt z) c None None = Accept.
+Proof. destruct c; [reflexivity|reflexivity|congruence]. Qed.
